@@ -105,8 +105,17 @@ def gen_elem_value(rng, st='<', et='>'):
     elem, val = '', ''
     for i in range(nseg + 1):
         lit = strip_tags(gen_str(rng, 4), st, et) if rng.random() < 0.8 else ''
+        lit_val = lit
+        if nseg and rng.random() < 0.12:
+            # literal text that would mean something else if it were read as a regular expression: a repetition count,
+            # an alternation, a class, an optional character; the value is the text itself or what the misreading accepts
+            lit, misread = pick(rng, [('pool{2}', 'pooll'), ('x{1,3}', 'xx'), ('a{,2}', 'a'), ('a|b', 'a'), ('[ab]', 'a'),
+                                      ('ab?', 'a'), ('a.c', 'abc'), ('a+', 'aa'), ('(a)', 'a'), ('a*', ''), ('^a', 'a'),
+                                      ('a$', 'a'), ('\\d', '7'), ('a{2}b', 'aab')])
+            lit = strip_tags(lit, st, et)
+            lit_val = lit if rng.random() < 0.5 else strip_tags(misread, st, et)
         elem += lit
-        val += lit
+        val += lit_val
         if i < nseg:
             base = strip_tags(gen_str(rng, 4), st, et)
             r = rng.random()
@@ -147,7 +156,7 @@ def field_policy(elems, st, et):
             'actions': [('S', e) for e in elems], 'context': []}
 
 
-def run(ctx):
+def _run(ctx):
     out = Outcome()
     rng = ctx.rng
     cases = []           # (elems, value, st, et, tag)
@@ -213,7 +222,7 @@ def run(ctx):
         use = caps if (tag == 'rand' or i % 7 == 0) else [1024, 1]
         for c in use:
             try:
-                a = shared[c].fits(pobj, 'actions', v, qobj)
+                a = shared[c].fits(pobj, 'actions', proto._exotic(v), qobj)
                 answers[c] = 'ok T' if a else 'ok F'
             except Exception as ex:
                 answers[c] = 'raise'
@@ -330,7 +339,7 @@ def _shared_checker_stream(ctx, out, rng):
             out.evaluations += 1
             pobj = proto.build_policy(field_policy([elem], st, et))
             try:
-                a = 'ok T' if ch.fits(pobj, 'actions', v, qobj) else 'ok F'
+                a = 'ok T' if ch.fits(pobj, 'actions', proto._exotic(v), qobj) else 'ok F'
             except Exception:
                 a = 'raise'
             want = oracle_fits([elem], v, st, et)
@@ -344,6 +353,16 @@ def _shared_checker_stream(ctx, out, rng):
                 fails.append(f)
             out.nontriv('shared %r %r %r %r' % (elem, st, v, cap))
     return fails
+
+
+def run(ctx):
+    # a third of the string inquiry values are instances of a str subclass (an Enum-with-str-mixin member, a tagged
+    # string type): they are equal to, and must be matched like, their text
+    proto.EXOTIC_STR[0] = True
+    try:
+        return _run(ctx)
+    finally:
+        proto.EXOTIC_STR[0] = False
 
 
 def replay(ctx, rp):
